@@ -349,6 +349,7 @@ class PathEnumerator:
             return self._loop(st, p, fr)
         if isinstance(st, ast.With):
             stacks = []
+            managers = []
             for item in st.items:
                 ce = item.context_expr
                 if isinstance(ce, ast.Call) and not ce.args and not ce.keywords and (
@@ -366,8 +367,24 @@ class PathEnumerator:
                 p.events.append(Event("with", st, v))
                 if item.optional_vars is not None and isinstance(item.optional_vars, ast.Name):
                     p.env[item.optional_vars.id] = ("withvar", item.optional_vars.id, show(v))
+                cm = self._class_manager(ce, v, f) if item.optional_vars is None else None
+                if cm is not None:
+                    # ``with K(..):`` for a class K of the package with __enter__ / __exit__: what __enter__ does happens here, what __exit__ does
+                    # happens on EVERY exit of the block -- the try / finally the statement abbreviates.  Read only when __exit__ does the same
+                    # whether or not the block raised (otherwise the statement is left as the plain ``with`` event it was)
+                    try:
+                        plan = self._manager_plan(cm, st)
+                    except Unsupported:
+                        plan = None
+                    if plan is not None:
+                        p.events.append(Event("try", st))
+                        self._commit(plan[0], p)
+                        managers.append(plan[1])
             outs = self.block(st.body, [p], fr)
             for q in outs:
+                for leaving in reversed(managers):
+                    q.events.append(Event("finally", st))
+                    self._commit(leaving, q)
                 for name in reversed(stacks):
                     q.events.append(Event("finally", st))
                     for kind, node, term in reversed(q.env.get("@exitstack:" + name, ("tuple", ()))[1]):
@@ -420,6 +437,157 @@ class PathEnumerator:
         raise Unsupported(f"statement {type(st).__name__} at line {st.lineno}")
 
     # ------------------------------------------------------------------------------------------
+    def _class_manager(self, ce: ast.AST, v: Term, f: Frame):
+        """A context manager written as a class of the package, constructed in the with statement itself: (class, field state, field -> argument syntax).
+        The field state is read from ``self.<field> = <parameter | constant>`` statements of its __init__ (anything else leaves the field unknown)."""
+        if not (v[0] == "new" and isinstance(ce, ast.Call)):
+            return None
+        K = self.ev.model.maybe_cls(v[1])
+        if K is None or K.resolve("__enter__") is None or K.resolve("__exit__") is None:
+            return None
+        init = K.resolve("__init__")
+        given = dict(v[2])
+        fields: Dict[str, Term] = {}
+        syntax: Dict[str, ast.AST] = {}
+        captured: Dict[str, tuple] = {}
+        if init is None:
+            if not K.is_dataclass:
+                return None
+            fields = dict(given)
+        else:
+            sn = init.self_name
+            params = [a.arg for a in init.params if a.arg != sn]
+            kw = {k.arg: k.value for k in ce.keywords if k.arg}
+            for i, a in enumerate(ce.args):
+                if i < len(params) and not isinstance(a, ast.Starred):
+                    kw.setdefault(params[i], a)
+            for stt in init.node.body:
+                tg, val = None, None
+                if isinstance(stt, ast.Assign) and len(stt.targets) == 1:
+                    tg, val = stt.targets[0], stt.value
+                elif isinstance(stt, ast.AnnAssign) and stt.value is not None:
+                    tg, val = stt.target, stt.value
+                if tg is None or not (isinstance(tg, ast.Attribute) and isinstance(tg.value, ast.Name) and tg.value.id == sn):
+                    continue
+                if isinstance(val, ast.Name) and val.id in params:
+                    if val.id in given:
+                        fields[tg.attr] = given[val.id]
+                        if val.id in kw:
+                            syntax[tg.attr] = kw[val.id]
+                    else:
+                        d = init.default_of(val.id) if hasattr(init, "default_of") else None
+                        if isinstance(d, ast.Constant):
+                            fields[tg.attr] = ("const", d.value)
+                elif isinstance(val, ast.Constant):
+                    fields[tg.attr] = ("const", val.value)
+                elif all(q in given for q in params if any(isinstance(n, ast.Name) and n.id == q for n in ast.walk(val))):
+                    # computed from the arguments when the object is made (the with statement makes it right before entering)
+                    try:
+                        got = self._fold_getattr(self.ev.expr(val, Frame(init, init.module, dict(given), K, f.depth + 1)))
+                    except Unsupported:
+                        continue
+                    fields[tg.attr] = got
+                    if got[0] in ("attr", "fn", "cls"):
+                        captured[tg.attr] = (got, 0)
+        return {"cls": K, "fields": fields, "syntax": syntax, "captured": captured}
+
+    def _manager_plan(self, cm, st: ast.stmt):
+        """(events of __enter__, events of __exit__) of a class-form manager for this instance; Unsupported when __exit__ behaves differently after an exception"""
+        enter = self._manager_events(cm, "__enter__", st, None)
+        after = dict(cm["fields"])
+        normal = self._manager_events(cm, "__exit__", st, False)
+        cm["fields"] = after
+        exceptional = self._manager_events(cm, "__exit__", st, True)
+        if [(e.kind, e.term) for e in normal] != [(e.kind, e.term) for e in exceptional]:
+            raise Unsupported(f"{cm['cls'].name}.__exit__ does not do the same when the block raised")
+        return enter, normal
+
+    def _commit(self, events: List[Event], p: Path) -> None:
+        for e in events:
+            p.events.append(e)
+            if e.kind == "store" and e.term[1][0] == "cls":
+                p.env[f"@{e.term[1][1]}.{e.term[2]}"] = e.term[3]
+
+    def _manager_events(self, cm, method: str, st: ast.stmt, raised: Optional[bool]) -> List[Event]:
+        """What ``method`` of the class-form context manager does, with the fields of the instance replaced by what they hold.
+        Exactly one way through the method must remain once the fields are known (its tests on the fields are decided); the ways out by an
+        exception raised inside the method are not followed."""
+        K = cm["cls"]
+        fn = K.resolve(method)
+        sub = PathEnumerator(self.ev)
+        paths = [q for q in sub.function_paths(fn, self_cls=K) if q.exit in ("fall", "return")]
+        sname = fn.self_name
+        out: List[Event] = []
+        exc_map = {}
+        if raised is not None:
+            for prm in [x for x in fn.param_names if x != sname][:3]:
+                exc_map[sym(prm)] = ("cls", "BaseException") if raised else NONE
+        live = []
+        for q in paths:
+            m = {("attr", sym(sname), k): val for k, val in cm["fields"].items()}
+            m.update(exc_map)
+            c = subst(q.cond, m)
+            # a field holding a function / class / object is not None
+            for a in subterms(c, lambda x: x[0] == "eq" and NONE in (x[1], x[2])):
+                other = a[2] if a[1] == NONE else a[1]
+                if other[0] in ("fn", "cls", "localdef", "lambda", "new"):
+                    c = subst(c, {a: FALSE})
+            if self.feasible(c):
+                live.append(q)
+        if len(live) != 1:
+            raise Unsupported(f"{K.name}.{method}: {len(live)} ways through it for this instance (expected one)")
+        fields = cm["fields"]
+        model = self.ev.model
+        for e in live[0].events:
+            m = {("attr", sym(sname), k): val for k, val in fields.items()}
+            m.update(exc_map)
+            if e.kind == "store" and e.term is not None and e.term[1] == sym(sname):
+                val = self._fold_getattr(subst(e.term[3], m))
+                fields[e.term[2]] = val
+                if val[0] == "attr" or val[0] in ("fn", "cls"):
+                    cm["captured"][e.term[2]] = (val, 0)
+                continue
+            if e.kind in ("store", "effect") and e.term is not None:
+                t = subst(e.term, m)
+                if e.kind == "effect" and t[0] == "call" and t[1] in ("setattr", ("global", "setattr")) and len(t[2]) == 3 and not t[3] \
+                        and t[2][1][0] == "const" and isinstance(t[2][1][1], str):
+                    owner, name, val = t[2][0], t[2][1][1], self._fold_getattr(t[2][2])
+                    raw = e.term[2][2]
+                    src = raw[2] if raw[0] == "attr" and raw[1] == sym(sname) else None
+                    syn_val = cm["syntax"].get(src) if src is not None else None
+                    node = ast.Assign(targets=[ast.Attribute(value=ast.Name(id=owner[1] if owner[0] == "cls" else "_", ctx=ast.Load()), attr=name, ctx=ast.Store())],
+                                      value=syn_val if syn_val is not None else ast.Constant(value=None))
+                    ast.copy_location(node, st)
+                    ast.fix_missing_locations(node)
+                    extra = "manager:" + K.name
+                    if src is not None and src in cm["captured"]:
+                        cap, _ = cm["captured"][src]
+                        extra = "captured-on-entry:" + (f"{cap[1][1]}.{cap[2]}" if cap[0] == "attr" and cap[1][0] == "cls" else show(cap))
+                    out.append(Event("store", node, ("store", owner, name, val), extra=extra))
+                    continue
+                if e.kind == "effect" and t[0] == "call" and t[1] in ("getattr", ("global", "getattr")):
+                    continue        # a read
+                if e.kind == "effect" and t[0] == "call" and isinstance(t[1], tuple) and t[1][0] == "fn" and not t[2] and not t[3]:
+                    # a callback handed to the manager: what it does happens here
+                    cands = [x for x in model.all_functions() if x.qualname == t[1][1]]
+                    if len(cands) == 1 and cands[0].kind == "function":
+                        inner = [r for r in PathEnumerator(self.ev).function_paths(cands[0]) if r.exit in ("fall", "return")]
+                        if len(inner) == 1:
+                            out.append(Event("enter-local", st, ("const", cands[0].name)))
+                            out.extend(x for x in inner[0].events)
+                            out.append(Event("leave-local", st, ("const", cands[0].name)))
+                            continue
+                out.append(Event(e.kind, e.node, t, extra=e.extra))
+        return out
+
+    def _fold_getattr(self, t: Term) -> Term:
+        if t[0] == "call" and t[1] in ("getattr", ("global", "getattr")) and len(t[2]) == 2 and not t[3] and t[2][1][0] == "const" and isinstance(t[2][1][1], str):
+            try:
+                return self.ev.attr(t[2][0], t[2][1][1], Frame(None, None, {}, None, 0))
+            except Exception:
+                return ("attr", t[2][0], t[2][1][1])
+        return t
+
     def _local_call(self, st: ast.stmt, p: Path, fr: Frame):
         """``f(...)``, ``x = f(...)`` or ``return f(...)`` where f is a closure defined earlier in this function, or a private helper
         (``self._f``, ``Cls._f``, module-level ``_f``) that resolves statically.  -> (call, def node, FunctionInfo|None, self term, self class)"""
